@@ -56,10 +56,10 @@ theorem token_step_copy (size n flags clen olen off len : Nat) (r cur prev : Byt
   simp only [hd, hbc, u16le_bytes _ hw]
   obtain ⟨e1, e2⟩ := unpack_eq (packCopy cur.length off len) bc hw hb4 (by omega)
   rw [e1, e2, hlen, hoff]
+  rw [if_neg (by omega)]
   have hloop : copyLoop off (len + 1) len (cur.reverse ++ prev) olen =
       .ok (copyRev off len (cur.reverse ++ prev), olen + len) := by
-    apply copyLoop_eq off h1 (by omega)
-    · simp; omega
+    apply copyLoop_eq off h1
     · simp; omega
     · calc len ≤ (len + 1) * 1 := by omega
         _ ≤ (len + 1) * off := Nat.mul_le_mul_left _ h1
